@@ -1,7 +1,7 @@
 (* C14 — property theorems only.  Each is closed by [exact] of a lemma from
    Proofs.v; the driver pins the statements with [Check] and prints the
    assumptions on every run. *)
-From Yv Require Import Common.Base C14.Model C14.Spec C14.Run C14.Proofs C14.ProofsPipe C14.ProofsRun.
+From Yv Require Import Common.Base C14.Model C14.Spec C14.Run C14.Chain C14.Proofs C14.ProofsPipe C14.ProofsRun C14.ProofsChain.
 
 (* received ++ pipe content ++ unsent = payload, in every reachable state, for
    every configuration and every schedule (no hypothesis at all) *)
@@ -83,7 +83,51 @@ Theorem poll_w_is_run :
     exists ls, Forall (fun l => l = LW \/ l = LSpurW) ls /\ run c s ls = Some s'.
 Proof. exact poll_w_run. Qed.
 
+(* the executable side of the script check is total (the fuel computed from the
+   input never runs out) and moves the data unchanged through any number of
+   pipes, for every chunking and every reader buffer *)
+Theorem pump_delivers :
+  forall c chunk cap l, cfg_ok c -> through_pipe c chunk cap l = Some l.
+Proof. exact through_pipe_identity. Qed.
+
+Theorem model_route_meets_spec :
+  forall c r l, cfg_ok c -> model_route c r l = Some (spec_route r l).
+Proof. exact model_route_is_spec. Qed.
+
+(* pipelines of any number of stages: a source, n relays (read a buffer,
+   write_all it) and a sink connected by n + 1 pipes, every schedule of the
+   n + 2 processes, every buffer size >= 1 *)
+Theorem chain_conservation :
+  forall c chunks n ls s, cfg_ok c -> Forall clabel_ok ls ->
+    crun c (cinit chunks n) ls = Some s ->
+    crecvd s ++ buf (pout s) ++ content (top s) = concat chunks.
+Proof. exact chain_conservation_lemma. Qed.
+
+Theorem chain_transfer_complete_in_order :
+  forall c chunks n ls s, cfg_ok c -> Forall clabel_ok ls ->
+    crun c (cinit chunks n) ls = Some s ->
+    (forall l, clabel_ok l -> cstep c s l = None) ->
+    cfinished s = true /\ crecvd s = concat chunks.
+Proof. exact chain_complete_lemma. Qed.
+
+Theorem chain_no_deadlock :
+  forall c chunks n ls s, cfg_ok c -> Forall clabel_ok ls ->
+    crun c (cinit chunks n) ls = Some s -> cfinished s = false ->
+    exists l, clabel_ok l /\ cstep c s l <> None.
+Proof. exact chain_no_deadlock_lemma. Qed.
+
+Theorem chain_terminates :
+  forall c chunks n ls s, cfg_ok c -> Forall clabel_ok ls ->
+    crun c (cinit chunks n) ls = Some s -> length ls <= chain_bound chunks n.
+Proof. exact chain_terminates_lemma. Qed.
+
 Print Assumptions pipe_conservation.
+Print Assumptions chain_conservation.
+Print Assumptions chain_transfer_complete_in_order.
+Print Assumptions chain_no_deadlock.
+Print Assumptions chain_terminates.
+Print Assumptions pump_delivers.
+Print Assumptions model_route_meets_spec.
 Print Assumptions pipe_refines_stream.
 Print Assumptions eval_model_is_spec.
 Print Assumptions poll_w_is_run.
